@@ -10,6 +10,7 @@ CONSTANTS
   MODFIX = FALSE
   COLFIX = TRUE
   WVFIX = TRUE
+  NTRYFIX = TRUE
   MAXIT = 10
 INVARIANT SameLattice
 INVARIANT RightHanded
@@ -22,6 +23,7 @@ INVARIANT IndexCol
 INVARIANT ScoreLaw
 INVARIANT WithvecOK
 INVARIANT FindLatticeOK
+INVARIANT FindLatticeAnyDir
 INVARIANT MinkSane
 INVARIANT Emit
 PROPERTY Variant
